@@ -1,6 +1,7 @@
 package main
 
 import (
+	"fmt"
 	"encoding/json"
 	"os"
 	"path/filepath"
@@ -86,6 +87,9 @@ func (c *corrCtx) finish() error {
 		"samples":      c.samples,
 		"extra":        c.extra,
 	}
-	b, _ := json.MarshalIndent(out, "", " ")
+	b, err := json.MarshalIndent(out, "", " ")
+	if err != nil {
+		return fmt.Errorf("cannot encode the run's statistics: %v", err)
+	}
 	return os.WriteFile(filepath.Join(c.outdir, "stats.json"), b, 0o644)
 }
